@@ -42,6 +42,18 @@ Section Resume.
     | _ => True
     end.
 
+  (* the resumption half alone: enough for the schedule theorem *)
+  Definition ResOK : Prop := forall p x i s, Inv i s -> i <= nnat (length p) ->
+    match P p i s with
+    | Done o EMore s' => Inv o s' /\ o <= nnat (length p) /\ req (P (p ++ x) o s') (P (p ++ x) i s)
+    | _ => True
+    end.
+  Lemma ExtOK_ResOK : ExtOK -> ResOK.
+  Proof.
+    intros H p x i s HI Hi. specialize (H p x i s HI Hi). destruct (P p i s) as [o e s'| |]; auto.
+    destruct e; auto.
+  Qed.
+
   (* b extends p *)
   Definition extends (p b : list byte) : Prop := exists x, b = p ++ x.
 
@@ -73,7 +85,7 @@ Section Resume.
     | _, _ => False
     end.
 
-  Lemma schedule_gen (H : ExtOK) (b : list byte) (k : N) (s0 : S) :
+  Lemma schedule_gen (H : ResOK) (b : list byte) (k : N) (s0 : S) :
     forall cuts lo o s, sorted_from lo cuts -> Inv o s -> o <= nnat (length (firstn lo b)) ->
       (forall b', extends (firstn lo b) b' -> req (P b' o s) (P b' k s0)) ->
       agrees b cuts (chunked_trace P b cuts o s) k s0.
@@ -106,7 +118,7 @@ Section Resume.
   Qed.
 
   (* C01 / C02 for one parser, given its one-step property *)
-  Theorem resume_schedule (H : ExtOK) (b : list byte) (k : N) (s0 : S) (cuts : list nat) :
+  Theorem resume_schedule_res (H : ResOK) (b : list byte) (k : N) (s0 : S) (cuts : list nat) :
     Inv k s0 -> k <= nnat (length b) -> sorted_from (N.to_nat k) cuts ->
     agrees b cuts (chunked_trace P b cuts k s0) k s0.
   Proof.
@@ -114,6 +126,10 @@ Section Resume.
     - unfold nnat in *. rewrite firstn_length. lia.
     - intros b' _. apply req_refl.
   Qed.
+  Theorem resume_schedule (H : ExtOK) (b : list byte) (k : N) (s0 : S) (cuts : list nat) :
+    Inv k s0 -> k <= nnat (length b) -> sorted_from (N.to_nat k) cuts ->
+    agrees b cuts (chunked_trace P b cuts k s0) k s0.
+  Proof. exact (resume_schedule_res (ExtOK_ResOK H) b k s0 cuts). Qed.
 
   (* C03 for one parser, given its one-step property *)
   Theorem no_premature_verdict (H : ExtOK) (b x : list byte) (k : N) (s0 : S) o e s :
